@@ -4,8 +4,8 @@
    model IS the statement of C03/C09 applied to the implementation's output - the oracles leave the
    trusted base.  cyclic_b is independent of the model's Kahn algorithm: it iterates the successor
    relation |a| times; the proof that this reaches the closure is a counting argument. *)
-From Coq Require Import List Arith Bool Lia Relations Sorted.
-From MR Require Import Model.Index Model.Dag Proofs.IndexProof Proofs.Walk Proofs.DagApi Harness.Glue.
+From Coq Require Import List Arith NArith Bool Lia Relations Sorted.
+From MR Require Import Lib.Bytes Model.Index Model.Dag Proofs.IndexProof Proofs.Walk Proofs.DagApi Harness.Glue.
 Import ListNotations.
 
 Lemma ssorted_NoDup (l : list nat) : StronglySorted lt l -> NoDup l.
@@ -329,6 +329,127 @@ Proof.
 Qed.
 End Oracle.
 
+(* ---------- C10: the edge oracle is the statement of C10 (its graph clauses) applied to the implementation's answer ---------- *)
+Lemma strs_eqb_eq (l1 : list str) : forall l2, strs_eqb l1 l2 = true <-> l1 = l2.
+Proof.
+  unfold strs_eqb. induction l1 as [|x l1 IH]; intros [|y l2]; simpl; try (split; discriminate).
+  - split; reflexivity.
+  - split.
+    + intros H. apply andb_true_iff in H as [Hl H]. apply andb_true_iff in H as [Hxy Hf].
+      apply str_eqb_eq in Hxy. subst y. f_equal. apply IH. apply andb_true_iff. split; auto.
+    + intros E. injection E as -> ->. assert (H : l2 = l2) by reflexivity. apply IH in H.
+      apply andb_true_iff in H as [Hl Hf]. simpl in Hl. rewrite Hl, Hf.
+      assert (Hy : str_eqb y y = true) by (apply str_eqb_eq; reflexivity). rewrite Hy. reflexivity.
+Qed.
+
+Definition edges_meet_C10 (cfg : config) (labels : list str) (a : list (list nat)) : Prop :=
+  labels = target_paths cfg /\ length a = length cfg /\
+  forall i ti, nth_error cfg i = Some ti ->
+    NoDup (nth i a []) /\ (forall j, In j (nth i a []) -> j < length cfg) /\
+    (forall j tj, nth_error cfg j = Some tj -> (In j (nth i a []) <-> dep ti tj)).
+
+Theorem spec_edges_iff cfg labels a : spec_edges cfg labels a = true <-> edges_meet_C10 cfg labels a.
+Proof.
+  unfold spec_edges, edges_meet_C10.
+  rewrite !andb_true_iff, strs_eqb_eq, Nat.eqb_eq, forallb_forall.
+  set (dflt := {| tpath := []; uses := []; ignores := [] |}).
+  split.
+  - intros ((Hlab & Hlen) & Hrows). split; [exact Hlab|]. split; [exact Hlen|].
+    intros i ti Hi. assert (Hil : i < length cfg) by (apply nth_error_Some; congruence).
+    specialize (Hrows i). rewrite in_seq in Hrows. specialize (Hrows (conj (Nat.le_0_l _) Hil)).
+    apply andb_true_iff in Hrows as [Hrows Hdep]. apply andb_true_iff in Hrows as [Hnd Hlt].
+    rewrite (nth_error_nth _ _ dflt Hi) in Hdep.
+    split; [apply nodup_b_NoDup; exact Hnd|]. split.
+    + intros j Hj. rewrite forallb_forall in Hlt. apply Nat.ltb_lt. apply Hlt. exact Hj.
+    + intros j tj Hj. assert (Hjl : j < length cfg) by (apply nth_error_Some; congruence).
+      rewrite forallb_forall in Hdep. specialize (Hdep j). rewrite in_seq in Hdep.
+      specialize (Hdep (conj (Nat.le_0_l _) Hjl)). rewrite (nth_error_nth _ _ dflt Hj) in Hdep.
+      apply Bool.eqb_prop in Hdep. rewrite <- mem_In, Hdep. apply dep_b_spec.
+  - intros (Hlab & Hlen & Hrows). split; [split; assumption|].
+    intros i Hi. apply in_seq in Hi as [_ Hi]. simpl in Hi.
+    destruct (nth_error cfg i) as [ti|] eqn:Ei; [|apply nth_error_None in Ei; lia].
+    destruct (Hrows i ti Ei) as (Hnd & Hlt & Hdep). rewrite (nth_error_nth _ _ dflt Ei).
+    apply andb_true_iff. split; [apply andb_true_iff; split|].
+    + apply nodup_b_NoDup. exact Hnd.
+    + apply forallb_forall. intros j Hj. apply Nat.ltb_lt. apply Hlt. exact Hj.
+    + apply forallb_forall. intros j Hj. apply in_seq in Hj as [_ Hj]. simpl in Hj.
+      destruct (nth_error cfg j) as [tj|] eqn:Ej; [|apply nth_error_None in Ej; lia].
+      rewrite (nth_error_nth _ _ dflt Ej). apply Bool.eqb_true_iff. apply eq_true_iff_eq.
+      rewrite mem_In, dep_b_spec. apply Hdep. exact Ej.
+Qed.
+
+(* ---------- C01: the summary oracle is the statement of C01 (its clauses about one answer) ---------- *)
+Lemma mem_str_In z l : mem_str z l = true <-> In z l.
+Proof.
+  unfold mem_str. rewrite existsb_exists. split.
+  - intros (x & Hx & E). apply str_eqb_eq in E. subst. exact Hx.
+  - intros H. exists z. split; auto. apply str_eqb_eq. reflexivity.
+Qed.
+
+Lemma sorted_strict_iff l : sorted_strict l = true <-> StronglySorted lex_lt l.
+Proof.
+  induction l as [|x l IH].
+  - split; [constructor|reflexivity].
+  - destruct l as [|y r].
+    + split; [intros _; constructor; constructor|reflexivity].
+    + change (sorted_strict (x :: y :: r)) with (lex_ltb x y && sorted_strict (y :: r)).
+      rewrite andb_true_iff, IH. split.
+      * intros [Hxy Hs]. constructor; auto. inversion Hs as [|? ? Hs' Hf]; subst.
+        constructor; [exact Hxy|]. rewrite Forall_forall in *. intros z Hz.
+        eapply lex_ltb_trans; [exact Hxy|apply Hf; exact Hz].
+      * intros Hs. inversion Hs as [|? ? Hs' Hf]; subst. split; auto.
+        rewrite Forall_forall in Hf. apply Hf. left; reflexivity.
+Qed.
+
+Lemma sset_eqb_iff l1 l2 : sset_eqb l1 l2 = true <-> (forall z, In z l1 <-> In z l2).
+Proof.
+  unfold sset_eqb. rewrite strs_eqb_eq. split.
+  - intros E z. rewrite <- (sset_of_In l1), <- (sset_of_In l2), E. tauto.
+  - apply sset_of_ext.
+Qed.
+
+Definition meets_C01 (cfg : config) (changes targets : list str) : Prop :=
+  StronglySorted lex_lt targets /\
+  (forall z, In z targets -> In z (target_paths cfg)) /\
+  (forall t, In t cfg ->
+     (spec_changed true cfg changes t = true -> In (tpath t) targets) /\
+     (In (tpath t) targets -> spec_changed false cfg changes t = true)).
+
+Theorem spec_C01_summary_iff cfg changes targets :
+  spec_C01 cfg changes targets None = true <-> meets_C01 cfg changes targets.
+Proof.
+  unfold spec_C01, meets_C01. rewrite !andb_true_iff, sorted_strict_iff, !forallb_forall. split.
+  - intros (((Hs & Hsub) & Hex) & _). split; [exact Hs|]. split.
+    + intros z Hz. apply mem_str_In. apply Hsub. exact Hz.
+    + intros t Ht. specialize (Hex t Ht). apply andb_true_iff in Hex as [H1 H2]. split.
+      * intros Hc. rewrite Hc in H1. simpl in H1. apply mem_str_In. exact H1.
+      * intros Hin. apply mem_str_In in Hin. rewrite Hin in H2. simpl in H2. exact H2.
+  - intros (Hs & Hsub & Hex). split; [split; [split; [exact Hs|]|]|reflexivity].
+    + intros z Hz. apply mem_str_In. apply Hsub. exact Hz.
+    + intros t Ht. destruct (Hex t Ht) as [H1 H2]. apply andb_true_iff. split.
+      * destruct (spec_changed true cfg changes t); [|reflexivity]. simpl. apply mem_str_In. apply H1. reflexivity.
+      * destruct (mem_str (tpath t) targets) eqn:E; [|reflexivity]. simpl. apply H2. apply mem_str_In. exact E.
+Qed.
+
+(* with a breakdown: additionally the summary is the set of non-ignored breakdown entries (entries are the byte strings
+   target ++ [0; reason code]; the decoding below is the one spec_C01 uses) *)
+Definition brk_non_ignored (b : list (str * list str)) : list str :=
+  flat_map (fun '(_, es) =>
+     flat_map (fun e => match rev e with
+                        | c :: z :: r => if N.eqb c 2 then [] else [rev r]
+                        | _ => [] end) es) b.
+
+Theorem spec_C01_breakdown_iff cfg changes targets b :
+  spec_C01 cfg changes targets (Some b) = true <->
+  meets_C01 cfg changes targets /\ (forall z, In z (brk_non_ignored b) <-> In z targets).
+Proof.
+  rewrite <- spec_C01_summary_iff. unfold spec_C01. fold (brk_non_ignored b).
+  rewrite !andb_true_iff, sset_eqb_iff. tauto.
+Qed.
+
 Print Assumptions cyclic_b_iff.
+Print Assumptions spec_C01_summary_iff.
+Print Assumptions spec_C01_breakdown_iff.
+Print Assumptions spec_edges_iff.
 Print Assumptions valid_layering_b_iff.
 Print Assumptions valid_pruned_b_iff.
